@@ -62,7 +62,7 @@ def oracle(ctx, ops, limit, li, rep):
 
 
 def run_c17(ctx):
-    ctx.rule = ("sequences of the eight recording operations over 3-4 addresses and limits 0..3: bounded-exhaustive "
+    ctx.rule = ("an in-process server with a 2 s status interval: aggregated totals across statistics ticks; sequences of the eight recording operations over 3-4 addresses and limits 0..3: bounded-exhaustive "
                 "to length 3 (quick) / 4 (thorough), random to length 10 000; splits across recorders merged by the "
                 "Reporter (IPv4, IPv4-mapped and IPv6 addresses); in-process server traffic with the recorder read back; Responder::send_responses with destinations the kernel refuses (send failures anywhere in a batch); non-trivial = distinct sequence with "
                 "at least one overflow, or a merge of >= 2 snapshots")
